@@ -591,6 +591,28 @@ func genJ2K(r *Rand, nRandom int, thor bool) []j2kArgs {
 			add(a)
 		}
 	}
+	// Tile-count limit (Isot is 16 bits: at most 65535 tiles), probed in every tier at 65535 /
+	// 65536 / 65540 / 70000 tiles along each axis with half-specified grids (one of
+	// TileWidth/TileHeight 0 = whole image in that axis), fully specified grids, and wider
+	// tiles; the other dimension is 1..3 so buffers stay small.
+	for _, n := range []int{65535, 65536, 65540, 70000} {
+		o := r.Range(1, 3)
+		grids := [][4]int{
+			{n, o, 1, 0},               // half-specified, tiles along x
+			{o, n, 0, 1},               // half-specified, tiles along y
+			{n, o, 1, o},               // fully specified
+			{o, n, o, 1},               // fully specified
+			{4*n - r.Intn(4), o, 4, 0}, // 4-wide tiles, height unspecified
+			{o, 4*n - r.Intn(4), 0, 4}, // 4-high tiles, width unspecified
+		}
+		for _, g := range grids {
+			a := base
+			a.W, a.H, a.TW, a.TH = g[0], g[1], g[2], g[3]
+			a.Levels = r.Pick(0, 1, 2)
+			a.Len = need(a)
+			add(a)
+		}
+	}
 	if thor {
 		// more than 65535 tiles: Isot is 16 bits
 		a := base
@@ -683,6 +705,9 @@ func c17J2K(c *Ctx) {
 			if !rep {
 				c.R.Fail("oracle", "c17_j2k", "c17:j2k:accepts:"+why,
 					fmt.Sprintf("encoder returned a %d-byte stream for unrepresentable arguments (%s)", len(out), why), a)
+				if why == "tiles>65535" {
+					return // Isot has wrapped; decoding tens of thousands of tile-parts adds nothing
+				}
 			}
 			d := jpeg2000.NewDecoder()
 			var derr error
